@@ -40,6 +40,7 @@ pub struct Tables {
     pub mutex_fields: BTreeSet<String>,
     pub drop_types: BTreeSet<String>,     // types with an extracted `drop`
     pub backparam_fns: BTreeMap<String, String>, // "Type::method" -> param name
+    pub field_types: BTreeMap<(String, String), String>, // (struct, field) -> declared type, spaces removed
     pub mutref_params: BTreeMap<String, Vec<usize>>, // method name -> positions of parameters retyped to `&mut T` (a `&x` argument becomes `&mut x`)
     pub ghost_structs: BTreeMap<String, Vec<(String, String)>>, // struct -> (field, init)
     pub dropped_fields: BTreeMap<String, Vec<String>>,
@@ -1944,10 +1945,83 @@ impl<'a> Elab<'a> {
         Expr::While(ExprWhile { attrs: vec![], label: None, while_token: w.while_token, cond: Box::new(cond), body })
     }
 
+    fn self_field_type(&self, e: &Expr) -> Option<(String, String)> {
+        // `self.F` / `&self.F` → (F, declared type)
+        let e = match peel_paren(e) {
+            Expr::Reference(r) => peel_paren(&r.expr).clone(),
+            other => other.clone(),
+        };
+        if let Expr::Field(fe) = &e {
+            if path_single_ident(&fe.base).as_deref() == Some("self") {
+                if let Member::Named(id) = &fe.member {
+                    let st = self.impl_ty.clone()?;
+                    return self.t.field_types.get(&(st, id.to_string())).map(|t| (id.to_string(), t.clone()));
+                }
+            }
+        }
+        None
+    }
+
+    fn expand_iter_chain(&self, f: &ExprForLoop) -> Option<Expr> {
+        let pat = &*f.pat;
+        let body = &f.body;
+        fn seg(this: &Elab, it: &Expr, pat: &Pat, body: &Block) -> Option<Vec<Stmt>> {
+            if let Expr::MethodCall(m) = peel_paren(it) {
+                // A.chain(B)
+                if m.method == "chain" && m.args.len() == 1 {
+                    let mut a = seg(this, &m.receiver, pat, body)?;
+                    let b = seg(this, &m.args[0], pat, body)?;
+                    a.extend(b);
+                    return Some(a);
+                }
+                // self.F.iter().flatten() with F: Option<Vec<_>>
+                if m.method == "flatten" && m.args.is_empty() {
+                    if let Expr::MethodCall(it2) = peel_paren(&m.receiver) {
+                        if it2.method == "iter" && it2.args.is_empty() {
+                            let (fname, ty) = this.self_field_type(&it2.receiver)?;
+                            if ty.starts_with("Option<Vec<") {
+                                let recv = &it2.receiver;
+                                let v = format_ident!("{}", fname);
+                                return Some(vec![parse_quote!(if let Some(#v) = &#recv { for #pat in #v.iter() #body })]);
+                            }
+                        }
+                    }
+                    return None;
+                }
+                // self.F.iter() with F: Option<_> (0 or 1 element)
+                if m.method == "iter" && m.args.is_empty() {
+                    let (_fname, ty) = this.self_field_type(&m.receiver)?;
+                    if ty.starts_with("Option<") && !ty.starts_with("Option<Vec<") {
+                        let recv = &m.receiver;
+                        return Some(vec![parse_quote!(if let Some(#pat) = &#recv #body)]);
+                    }
+                    return None;
+                }
+            }
+            None
+        }
+        // only when an adapter is involved at the top (plain `x.iter()` over a Vec is handled below)
+        let top = match peel_paren(&f.expr) {
+            Expr::MethodCall(m) => m.method.to_string(),
+            _ => return None,
+        };
+        if top != "chain" && top != "flatten" && top != "iter" {
+            return None;
+        }
+        let stmts = seg(self, &f.expr, pat, body)?;
+        Some(expr_block(stmts))
+    }
+
     fn do_for(&mut self, f: ExprForLoop) -> Expr {
         let sp = f.span();
         if f.label.is_some() {
             self.unsupported("labelled loop", sp);
+        }
+        // `for PAT in A.chain(B)`, `self.F.iter().flatten()` (F: Option<Vec<_>>), `self.F.iter()` (F: Option<_>): the adapters are
+        // expanded by their std meaning into the plain `if let` / `for` forms (which are then extracted as usual); only for
+        // fields whose declared type is known
+        if let Some(rewritten) = self.expand_iter_chain(&f) {
+            return self.fold_expr(rewritten);
         }
         let marker = self.loop_marker(format!("for {} in {}", f.pat.to_token_stream(), expr_to_string(&f.expr)));
         let pat = (*f.pat).clone();
